@@ -116,6 +116,17 @@ def play_schedule(tier, seed, only=None):
         mf = mido.MidiFile(type=1, ticks_per_beat=tpb, tracks=tracks)
         want_meta = rng.random() < 0.5
         expected = list(mf)                               # seconds per message (proved under C13.__iter__)
+        # independent reference: the tempo map applied to the merged track (500000 until a set_tempo, changing AFTER it)
+        ref, cur = [], 500000
+        for m in mf.merged_track:
+            ref.append(m.time * cur * 1e-6 / tpb)
+            if m.type == 'set_tempo':
+                cur = m.tempo
+        n += 1
+        if len(ref) != len(expected) or any(abs(a - b.time) > 1e-9 for a, b in zip(ref, expected)) or abs(mf.length - sum(ref)) > 1e-6:
+            fails.append(dict(clause='iteration times and length follow the tempo map', inputs=dict(seed=seed, trial=trial, ticks_per_beat=tpb, tracks=[[str(x) for x in tr] for tr in tracks]),
+                              detail='iteration %r, length %r, tempo map %r' % ([round(x.time, 6) for x in expected], mf.length, [round(x, 6) for x in ref])))
+            continue
         pattern = rng.choice(['none', 'one-stall', 'every-2nd', 'huge'])
         clock = [100.0]
         slept = []
